@@ -12,6 +12,8 @@ int probe(int newval);
 int vprobe(int newval, ...);
 int via_cb(int (*cb)(int), int pre, int *seen_after);
 int via_xp(int pre, int *seen_after);
+int via_cb_gil(int (*cb)(int), int pre, int *seen_after);
+int via_xp_gil(int pre, int *seen_after);
 extern "Python" int xp_body(int);
 int gv;
 int get_gv_seen(void);
@@ -25,6 +27,13 @@ int via_cb(int (*cb)(int), int pre, int *seen_after)
 static int xp_body(int);
 int via_xp(int pre, int *seen_after)
 { int r; errno = pre; r = xp_body(pre); *seen_after = errno; return r; }
+/* the C caller takes the GIL itself around the callback (extension-module style glue) */
+int via_cb_gil(int (*cb)(int), int pre, int *seen_after)
+{ int r; PyGILState_STATE st = PyGILState_Ensure(); errno = pre; r = cb(pre); *seen_after = errno;
+  PyGILState_Release(st); errno = *seen_after; return r; }
+int via_xp_gil(int pre, int *seen_after)
+{ int r; PyGILState_STATE st = PyGILState_Ensure(); errno = pre; r = xp_body(pre); *seen_after = errno;
+  PyGILState_Release(st); errno = *seen_after; return r; }
 static __thread int gv_seen_tl = -1;
 static int gv_store = 7;
 int *gv_fetch(void) { gv_seen_tl = errno; errno = gv_seen_tl + 1000; return &gv_store; }
@@ -188,6 +197,10 @@ class Run(object):
             r = self.check.mod.lib.via_cb(self.cb_m, pre, seen)
         elif path == 'cb_dl':
             r = self.check.dl_lib.via_cb(self.cb_i, pre, seen)
+        elif path == 'cb_gil':
+            r = self.check.mod.lib.via_cb_gil(self.cb_i, pre, seen)
+        elif path == 'xp_gil':
+            r = self.check.mod.lib.via_xp_gil(pre, seen)
         else:
             r = self.check.mod.lib.via_xp(pre, seen)
         self.cur[w].pop()
@@ -241,8 +254,40 @@ class Run(object):
                           'had left %r' % (seen[0], self.S.get(key)))
         self.out.probe('first_callback_of_a_brand_new_foreign_thread')
 
+    # ---- two brand-new foreign threads, both past the callback entry before either holds the GIL ----
+    def gated_pair(self, w, pre_x, pre_y, xp_x, xp_y, first, body_x, body_y):
+        self.pair_n = getattr(self, 'pair_n', 0) + 1
+        kx, ky = 'pairX%d' % self.pair_n, 'pairY%d' % self.pair_n
+        filt = lambda b: [st for st in b if st[0] not in ('pt', 'cb', 'gv')]
+        self.S[kx] = self.S[ky] = None
+        self.cur[kx] = [(filt(body_x), False, 2, pre_x)]
+        self.cur[ky] = [(filt(body_y), False, 2, pre_y)]
+        self.pair_keys = {-98: kx, -97: ky}
+        out4 = self.check.iffi.new('int[4]')
+        r = self.check.ftmod.lib.ft_gated_pair(self.drv.cb, pre_x, pre_y, xp_x, xp_y, first, out4)
+        self.pair_keys = None
+        if r != 0:
+            raise HarnessError('gated pair helper returned %d' % r)
+        self.out.fault('two_callbacks_entered_before_either_holds_the_GIL')
+        if self.violation is None:
+            for name, k, pre, res, seen in (('first', kx, pre_x, out4[0], out4[1]), ('second', ky, pre_y, out4[2], out4[3])):
+                if res != pre + 1:
+                    self.fail('C22.3', 'overlapping callback entries: the %s-started thread\'s callback returned %d, '
+                              'expected %d' % (name, res, pre + 1))
+                elif seen != self.S.get(k):
+                    self.fail('C22.3', 'overlapping callback entries: after its callback the %s-started thread saw '
+                              'errno %d in C, its callback had left %r' % (name, seen, self.S.get(k)))
+
     # ---- foreign thread body (ftdriver): same scripts, own shadow ----
     def foreign_body(self, who, arg):
+        if who in (-98, -97):
+            key = self.pair_keys[who]
+            self.S[key] = arg
+            self.lastwrite[key] = 'C'
+            # the very first thing the body does is to read its own errno
+            self.get(key, 0)
+            self.steps(key, self.cur[key][-1][0], 2)
+            return arg + 1
         if who == -99:
             key = self.oneshot_key
             self.S[key] = arg            # C set errno = arg just before calling back
@@ -278,6 +323,10 @@ class Run(object):
                 if st[0] == 'oneshot':
                     if self.drv is not None:
                         self.oneshot(w, st[1], st[2], st[3])
+                    continue
+                if st[0] == 'gatedpair':
+                    if self.drv is not None:
+                        self.gated_pair(w, *st[1:])
                     continue
                 if st[0] == 'fcall':
                     if self.drv is None:
@@ -360,6 +409,9 @@ class C22(core.Check):
         self.abi_lib = _verif_errno_abi.ffi.dlopen(_verif_errno.__file__)
         self.addr_probe = self.mod.ffi.addressof(self.mod.lib, 'probe')
         self.addr_via_cb = self.mod.ffi.addressof(self.mod.lib, 'via_cb')
+        import ctypes, _cffi_backend
+        shim = ctypes.PyDLL(_cffi_backend.__file__)
+        self.ftmod.lib.ft_set_gate_fn(ctypes.cast(shim.cffi_verif_arm_gate, ctypes.c_void_p).value)
         self.active = variant
         self.next_fid = 0
         self.gv_value = 7
@@ -380,7 +432,7 @@ class C22(core.Check):
                 out.append(['probe', rng.choice(['api', 'addr', 'dlopen', 'abi', 'variadic', 'api_conv', 'addr_conv', 'dlopen_conv']),
                             rng.choice(VALUES)])
             elif k == 'cb':
-                out.append(['cb', rng.choice(['cb_i', 'cb_m', 'cb_dl', 'cb_addr', 'xp']), rng.choice(VALUES[:10]),
+                out.append(['cb', rng.choice(['cb_i', 'cb_m', 'cb_dl', 'cb_addr', 'xp', 'cb_gil', 'xp_gil']), rng.choice(VALUES[:10]),
                             self.gen_steps(rng, rng.randint(0, 4), depth + 1), rng.chance(0.12)])
             elif k == 'gv':
                 out.append(['gv', rng.choice(['read', 'read', 'write', 'addr']), rng.randint(-100, 100)])
@@ -397,6 +449,12 @@ class C22(core.Check):
                 pos = rng.randint(0, len(threads[0]))
                 threads[0].insert(pos, ['fcall', rng.choice(VALUES[:10]), self.gen_steps(rng, rng.randint(0, 4), 1),
                                         rng.below(2)])
+            for _ in range(rng.randint(0, 2)):
+                t = rng.below(len(threads))
+                px, py = rng.sample(VALUES[1:10], 2)
+                threads[t].insert(rng.randint(0, len(threads[t])),
+                                  ['gatedpair', px, py, rng.below(2), rng.below(2), rng.below(2),
+                                   self.gen_steps(rng, rng.randint(0, 3), 2), self.gen_steps(rng, rng.randint(0, 3), 2)])
             for _ in range(rng.randint(0, 2)):
                 t = rng.below(len(threads))
                 threads[t].insert(rng.randint(0, len(threads[t])),
